@@ -1,7 +1,11 @@
 package snapshot
 
 import (
+	"context"
+
+	"github.com/containerd/containerd/v2/core/snapshots/storage"
 	"github.com/moby/sys/mountinfo"
+	"verifsim/simsync"
 )
 
 // The kernel mount table is replaced in the instrumented copy: the harness owns a simulated
@@ -26,4 +30,41 @@ func verifUnmount(target string, flags int) error {
 		return VerifForceUnmount(target)
 	}
 	return nil
+}
+
+// Write transactions of the metadata store: bolt serialises them with a real mutex, on which a
+// simulated task must never block while it holds the scheduler's token. With VerifTxYield set the
+// harness may park tasks inside a write transaction (disk calls are scheduling points), so the
+// writer lock is taken first at the simulation level, where waiting is a visible task state. The
+// exclusion bolt provides is unchanged: one writer at a time, readers never wait.
+var (
+	VerifTxYield bool
+	verifTxMu    simsync.Mutex
+)
+
+type verifTx struct {
+	storage.Transactor
+	done bool
+}
+
+func (t *verifTx) release() {
+	if !t.done {
+		t.done = true
+		verifTxMu.Unlock()
+	}
+}
+func (t *verifTx) Commit() error   { err := t.Transactor.Commit(); t.release(); return err }
+func (t *verifTx) Rollback() error { err := t.Transactor.Rollback(); t.release(); return err }
+
+func verifTransactionContext(ms *storage.MetaStore, ctx context.Context, writable bool) (context.Context, storage.Transactor, error) {
+	if !writable || !VerifTxYield {
+		return ms.TransactionContext(ctx, writable)
+	}
+	verifTxMu.Lock()
+	ctx2, t, err := ms.TransactionContext(ctx, true)
+	if err != nil {
+		verifTxMu.Unlock()
+		return ctx2, t, err
+	}
+	return ctx2, &verifTx{Transactor: t}, nil
 }
